@@ -53,6 +53,9 @@ def confusable_pairs(rng):
         (("posset", s, (0, 2), (3, 5)), ("posset", s, (3, 5), (0, 2))),
         (("posset", s, (0, 2), (3, 5)), ("posset", s, (0, 2), (0, 2), (3, 5))),
         (("nsnp",), ("no",)),
+        # two different origins of a user's own class that are both falsy (empty spans at different places)
+        (("span", s, 1, 1), ("span", s, 2, 2)),
+        (("span", s, 0, 0), ("span", s2, 0, 0)),
         (("whole", s), ("gen", s)),
     ]
 
